@@ -138,6 +138,10 @@ def compile_source(src, args=(), name="p0", budget=None, wall=45, codegen=True, 
     r.name = name
     if hygiene:
         reset_globals()
+    # main() raises the recursion limit before doing anything else: mirror it (C18 also drives the real command line)
+    lim = getattr(m, "RECURSION_LIMIT", None)
+    if lim and sys.getrecursionlimit() < lim:
+        sys.setrecursionlimit(lim)
     old = signal.signal(signal.SIGALRM, _alarm)
     signal.alarm(wall)
     if budget is not None:
